@@ -42,10 +42,10 @@ Definition f_as_u32 (x : float) : Z :=
 Definition F64_MAX : float := 0x1.fffffffffffffp+1023%float.
 
 (** ---- kalman.rs -------------------------------------------------------------------- *)
-(** [KalmanConfig::for_rtt()] — literals inside a fn body, not [const] items. *)
-Definition KALMAN_Q_VALUE : float := 0x1.0000000000000p-1%float.    (* 0.5 *)
-Definition KALMAN_Q_VELOCITY : float := 0x1.999999999999ap-4%float. (* 0.1 *)
-Definition KALMAN_R : float := 0x1.0000000000000p+1%float.          (* 2.0 *)
+(** [KalmanConfig::for_rtt()] — literals inside a fn body, not [const] items: KALMAN_Q_VALUE,
+    KALMAN_Q_VELOCITY, KALMAN_R are regenerated into Gen/FConstants.v as anchored literals
+    (tools/gen_constants.py FANCHORS), like EWMA_DELTA_ALPHA ([Ewma::new(0.2)] in RttTracker::default),
+    RTT_DEFAULT_MIN and RTT_JITTER_DECAY below.  The 1e-12 guard is tied by Proofs/LeafRttP.v. *)
 Definition KALMAN_S_EPS : float := 0x1.19799812dea11p-40%float.     (* 1e-12 *)
 
 Record kalman := { kx : float; kv : float; kp0 : float; kp1 : float; kp2 : float; kp3 : float;
@@ -76,7 +76,6 @@ Definition kalman_update (k : kalman) (m : float) : kalman :=
 
 (** ---- ewma.rs ----------------------------------------------------------------------- *)
 Record ewma := { ev : float; einit : bool }.
-Definition EWMA_DELTA_ALPHA : float := 0x1.999999999999ap-3%float.  (* Ewma::new(0.2) *)
 Definition ewma_new : ewma := {| ev := 0; einit := false |}.
 Definition ewma_update (alpha : float) (e : ewma) (m : float) : ewma :=
   if f_is_nan m || f_is_inf m then e else
@@ -84,8 +83,6 @@ Definition ewma_update (alpha : float) (e : ewma) (m : float) : ewma :=
   else {| ev := (ev e * (1 - alpha) + m * alpha)%float; einit := true |}.
 
 (** ---- rtt.rs ------------------------------------------------------------------------ *)
-Definition RTT_DEFAULT_MIN : float := 0x1.9000000000000p+7%float.   (* 200.0 *)
-Definition RTT_JITTER_DECAY : float := 0x1.fae147ae147aep-1%float.  (* 0.99 *)
 
 Record rtt := {
   r_ka_sent_ms : Z;          (* last_keepalive_sent_ms *)
